@@ -68,3 +68,146 @@ def replay(prop, path):
                 print('relation %s: a=%r b=%r expected b = lam^%d a; rel.dev = %.3g' % (rp['relation'], nr['a'], nr['b'], rp['expected_degree'], dev))
                 return 1 if dev > 1e-9 else 0
     return 2
+
+
+def check_C09(tier, only):
+    return run_es('C09', tier, es.jobs_C09(tier, seed()), only,
+                  ['relations decided: permuted model at permuted amounts = original (per contribution; chemical potentials permute); zero-padded full model = Components::subset model; '
+                   'subset model = model built directly from records[idx]; component entered twice = once with summed amounts',
+                   'literal constants within 8 ulp are identified before encoding (f64 roundoff of re-ordered parameter preprocessing); count reported per job (merged_constants)'],
+                  ['Residual::residual_helmholtz_energy_contributions<Sym / Dual<Sym>>', 'Components::subset', 'Parameter::from_records / from_multiple_json / ParameterHetero::from_segments'],
+                  {'components': 3, 'permutations': '1 (quick) / all 5 (thorough)', 'subsets': '3 (quick) / 8 (thorough)', 'cone_depth': '5 (+3 for sums)'})
+
+
+def check_C08(tier, only):
+    jobs = es.jobs_C08(tier, seed())
+    if tier == 'quick':
+        for j in jobs:
+            if j[0].startswith('fun_vs_eos') or j[0].startswith('vrq_fh0'):
+                j[2]['budget_s'] = 45   # outside the prover's reach (scope file): only the native comparison is made in the quick tier
+    return run_es('C08', tier, jobs, only,
+                  ['pairs decided: generic containers (ResidualModel enum, EquationOfState wrapper) vs bare model; ePC-SAFT without ions vs PC-SAFT; homosegmented GC parameters vs combined record; '
+                   'Peng-Robinson residual pressure (dual-number derivative of the code) vs textbook closed form',
+                   'functional-bulk vs equation-of-state pairs and SAFT-VRQ Mie(FH0) vs SAFT-VR Mie are outside the reach of the prover (scope/es_scope.json); for them only a natively reproduced deviation is reported',
+                   'f64::EPSILON regularisers of the functionals are mapped to 0 in the functional pairs'],
+                  ['residual_helmholtz_energy_contributions of both members of each pair', 'feos-derive Residual/Components derive macros (through ResidualModel)', 'PengRobinson::residual_helmholtz_energy<Dual<Sym>>'],
+                  {'components': 2, 'pairs': len(jobs)})
+
+
+def check_C13(tier, only):
+    return run_es('C13', tier, es.jobs_C13(tier, seed()), only,
+                  ['relation decided: the dual part that second_virial_coefficient reads at zero density equals the same dual part of the finite-density code path at rho = 0 (limit consistency), per contribution',
+                   'StateHD::new_virial is pub(crate): the 10-line constructor is mirrored in symtrace/src/jobs.rs'],
+                  ['Residual::residual_helmholtz_energy_contributions<HyperDual<Sym>> (B), <Dual3<Sym>> (C, thorough)'],
+                  {'components': 2, 'molefracs': [0.4, 0.6], 'order': '2 (quick) / 2,3 (thorough)'})
+
+
+def check_C10(tier, only):
+    return run_es('C10', tier, es.jobs_C10(tier, seed()), only,
+                  ['relations decided: A_ig(T,V,N) = sum_i A_ig^{pure i}(T,V,N_i) (ideal mixing) and A_ig(T, lam V, lam N) = lam A_ig (extensivity) for Joback and DIPPR models'],
+                  ['IdealGas::ideal_gas_helmholtz_energy<Sym>', 'Joback::ln_lambda3', 'Dippr::ln_lambda3', 'Components::subset'],
+                  {'components': 2})
+
+
+def check_C01(tier, only):
+    return run_es('C01', tier, es.jobs_C01(tier, seed()), only,
+                  ['C01-b: the trace of each model at two different witnesses denotes the same function (no state-dependent data concretised through .re())',
+                   'C01-c: derivative parts computed through Dual/HyperDual/Dual3<Sym> have the homogeneity degree implied by first-order homogeneity of A (p, mu: 0; dp/dV, dmu/dN: -1; S: 1; ...)'],
+                  ['residual_helmholtz_energy_contributions<Sym>, <Dual<Sym,f64>>, <HyperDual<Sym,f64>>, <Dual3<Sym,f64>>'],
+                  {'components': 2})
+
+
+# ------------------------------------------------------------------------------------------------
+# C03: E-M control slices (density_iteration, newton) [+ E-K constructor harnesses]
+# ------------------------------------------------------------------------------------------------
+NATIVE_DIR = os.path.join(VERIF, 'native')
+NATIVE_BIN = os.path.join(WORK, 'native-target', 'release', 'feos-native-replay')
+
+
+def build_native():
+    sh('cp %s/Cargo.lock %s/Cargo.lock' % (REPO, NATIVE_DIR), check=True)
+    p = sh('cargo build --release --target-dir %s' % os.path.join(WORK, 'native-target'), cwd=NATIVE_DIR, timeout=3000)
+    if p.returncode != 0:
+        raise RuntimeError('native replay crate build failed: ' + p.stderr[-2000:])
+
+
+def c03_control_slices(out, cov):
+    import mir
+    path, dump_s = mir.dump_mir('feos-core')
+    fs = mir.parse_functions(path, ['density_iteration', 'newton'])
+    samples = []
+    states = transitions = 0
+    queries = []
+    for w in ('density_iteration', 'newton'):
+        if len(fs[w]) != 1:
+            out.inconclusive.append('MIR: expected exactly one body of %s, found %d' % (w, len(fs[w])))
+            continue
+        f = fs[w][0]
+        sl = mir.Slice.pruned(f)
+        states += len(f.order); transitions += len(sl.rules)
+        ok_blocks = sl.find_blocks(r'_0 = Result::<.*>::Ok\(')
+        nc_blocks = sl.find_blocks(r'EosError::NotConverged\(')
+        if not ok_blocks:
+            out.inconclusive.append('MIR of %s: no Ok-return block found' % w); continue
+        for bb in ok_blocks:
+            # vacuity: the Ok return is reachable at all
+            r0, t0_, _ = sl.query_unreachable(bb)
+            queries.append({'function': w, 'query': 'Ok-return block %s reachable (vacuity witness)' % bb, 'answer': r0, 'solver_s': round(t0_, 2)})
+            if r0 != 'reachable':
+                out.inconclusive.append('%s: vacuity witness failed: Ok block %s not shown reachable (%s)' % (w, bb, r0))
+            # the property: Ok is never returned when the iteration budget is exhausted without a passed tolerance test
+            r1, t1, raw = sl.query_unreachable(bb, 'vexh', timeout=300)
+            queries.append({'function': w, 'query': 'Ok-return block %s reachable with exh (last Range::next poll returned None)' % bb, 'answer': r1, 'solver_s': round(t1, 2)})
+            if r1 == 'reachable':
+                # candidate path: confirm natively through the public API
+                nat = None
+                if w == 'density_iteration':
+                    build_native()
+                    p = sh([NATIVE_BIN, 'density_scan', '369.8', '41.9e5', '0.15', '24'], timeout=1200)
+                    try:
+                        nat = json.loads(p.stdout.strip().splitlines()[-1])
+                    except Exception:
+                        nat = None
+                    cov['traces_validated_against_impl'] = cov.get('traces_validated_against_impl', 0) + 1
+                    if nat and nat['ok_but_wrong']:
+                        out.violation({'engine': 'E-M', 'site': 'density_iteration:exhaustion'},
+                                      'C03: density_iteration returns Ok after exhausting its iteration budget (abstract path found by z3 Spacer on the MIR control slice); '
+                                      'natively State::new_npt(PengRobinson propane, %s) returns Ok with pressure %s' % (
+                                          {k: nat['ok_but_wrong'][0][k] for k in ('T', 'p', 'rho0_over_rhomax')}, nat['ok_but_wrong'][0]['pressure_of_state']),
+                                      {'native_cmd': '%s density_scan 369.8 41.9e5 0.15 24' % NATIVE_BIN, 'native_result': nat, 'chc': raw[:200]})
+                    else:
+                        out.inconclusive.append('density_iteration: abstract exhaustion path to Ok exists but the native scan found no wrong state (abstraction too coarse)')
+                else:
+                    out.inconclusive.append('%s: abstract path to Ok after exhaustion; no native replay available for this function' % w)
+            elif r1 != 'unreachable':
+                out.inconclusive.append('%s: Spacer did not decide the exhaustion query (%s)' % (w, r1))
+        for bb in nc_blocks:
+            r2, t2, _ = sl.query_unreachable(bb, timeout=60)
+            queries.append({'function': w, 'query': 'NotConverged block %s reachable' % bb, 'answer': r2, 'solver_s': round(t2, 2)})
+            if r2 == 'unreachable':
+                out.inconclusive.append('%s: the NotConverged error path is dead code (proved unreachable by Spacer)' % w)
+        samples.append({'function': w, 'blocks': len(f.order), 'horn_rules': len(sl.rules), 'tracked_components': sl.comp})
+    cov['states'] = cov.get('states', 0) + states
+    cov['transitions'] = cov.get('transitions', 0) + transitions
+    cov.setdefault('samples', []).extend(samples)
+    cov['chc_queries'] = queries
+    cov['mir_dump_s'] = round(dump_s, 1)
+    cov.setdefault('traces_validated_against_impl', 0)
+
+
+def check_C03(tier, only):
+    out = Outcome('C03', tier, 'model_checking')
+    cov = {}
+    try:
+        if not only or 'slices' in only:
+            c03_control_slices(out, cov)
+    except Exception as e:
+        import traceback
+        out.inconclusive.append('E-M failed: ' + traceback.format_exc()[-1200:])
+    cov.setdefault('states', 1); cov.setdefault('transitions', 1); cov.setdefault('samples', [{}]); cov.setdefault('traces_validated_against_impl', 0)
+    cov['functions_encoded'] = ['feos_core::density_iteration::density_iteration (MIR control slice)', 'feos_core::state::newton (MIR control slice)']
+    cov['bounds'] = 'unbounded in the iteration count (CHC invariants by z3 Spacer); abstraction: only integer/boolean locals, Range<i32>, Option<i32> tracked; calls and float comparisons nondeterministic'
+    out.coverage = cov
+    out.assumptions = ['std contracts of Range<i32>::next / into_iter', 'integer overflow asserts of the MIR (overflow-checks=on) end the path (panic), they do not return',
+                       'unreachability answers are sound for the real function; reachability answers are abstract paths and are only reported after a native replay through the public API']
+    return out.finish()
